@@ -7,6 +7,7 @@ from ..build import sym
 COND_CLASSES = ["ConditionalGaussianPDF", "ConditionalGaussianDiagPDF", "ConditionalIdentityGaussianPDF",
                 "ConditionalIdentityDiagGaussianPDF"]
 BATCH_CTX = ["1/1", "n/1", "1/n"]          # (R_cond / R_x)
+ROUTE_CTX = ["1/1@Sigma", "1/1@Lambda", "n/1@Lambda"]     # constructor routes of the conditional (covariance only / precision only)
 REGIMES = ["Dx>Dy", "Dx<=Dy"]
 
 
@@ -31,18 +32,40 @@ def regime_facts(Dx, Dy, regime):
     return {("lt", repr(Dy), repr(Dx)): gt, ("le", repr(Dx), repr(Dy)): not gt}
 
 
+CTOR_ROUTES = ["full", "Sigma", "Lambda"]
+
+
+def split_ctx(ctx):
+    """'n/1' or 'n/1@Lambda' -> (batch ctx, constructor route)"""
+    if "@" in ctx:
+        b, a = ctx.split("@")
+        return b, a
+    return ctx, "full"
+
+
 def setup_cond(cls, ctx, regime="Dx<=Dy", px_args="full"):
     """returns I, cond, p_x, sizes"""
+    ctx, cargs = split_ctx(ctx)
     Rc, Rx, Dy, Dx = cond_sizes(cls, ctx)
     I = build.new_interp(facts=regime_facts(Dx, Dy, regime))
-    c = build.conditional(I, Rc, Dy, Dx, "c", cls=cls)
+    c = build.conditional(I, Rc, Dy, Dx, "c", cls=cls, args=cargs)
     px = build.pdf(I, Rx, Dx, "px", args=px_args)
     return I, c, px, (Rc, Rx, Dy, Dx)
 
 
 def cond_params(c, Rc, Dy, Dx):
     """definitional (M, b, Sigma, Lambda, lds) of a linear conditional; identity classes: M = I, b = 0."""
-    S, L, lds = c.f["Sigma"], c.f["Lambda"], c.f["ln_det_Sigma"]
+    g = c.meta.get("given", {})
+    if "Sigma" in g:
+        # definitional noise parameters from the covariance the user supplied (independent of __post_init__)
+        S = g["Sigma"]
+        L, lds = nf.inverse(S)
+    elif "Lambda" in g:
+        L = g["Lambda"]
+        S, ldL = nf.inverse(L)
+        lds = nf.neg(ldL)
+    else:
+        S, L, lds = c.f["Sigma"], c.f["Lambda"], c.f["ln_det_Sigma"]
     if is_identity(c.cls):
         M = nf.expand_dims(nf.eye(Dy), [None])
         b = None
